@@ -16,18 +16,20 @@ RULE = (
     "(all float64, all float32, or independently mixed), a unit per operand (tof s/ms/us/ns; L1 "
     "and L2 independently m/mm/cm/km/um/nm/angstrom; energy meV/eV/ueV/J), Ei and Ef log-uniform "
     "over 1e-3..1e4 meV and L1, L2 over 0.1..1e3 m (boundary-biased: exact powers of ten, "
-    "few-mantissa-bit values), and an operand layout (0-d, tof[tof], L2/energy per spectrum, all "
-    "operands along one dim, DataArray through convert() with optional bin-edge tof). Arrival "
-    "times are t = L1/v(Ei) + L2/v(Ef) evaluated in 50 digits from the *stored* operands and "
-    "rounded to the tof unit and dtype, plus unphysical times (fractions of t0, zero, negative), "
-    "arbitrary times t0*10^[-3,3], and for the boundary facet every representable time within 64 "
-    "ulp of the exact t0 = L/v(E_fixed) together with t0 -/+ 1000 ulp, -/+ 0.1 %, t0/2, 2 t0, 0 "
-    "and -t0. Oracle: the definition E = m_n v^2/2 leg by leg in mpmath (m_n from "
-    "scipp.constants), evaluated on the stored operands. A value case is non-trivial when Ei != "
-    "Ef for some compared element whose tolerance is at most 1 % of max(Ei, Ef) (i.e. the "
-    "comparison really constrains the result; ill-conditioned elements are compared but not "
-    "counted); a boundary case is non-trivial when the NaN/finite transition was located strictly "
-    "inside the sampled window; distinct = distinct descriptor hash."
+    "few-mantissa-bit values), and an operand layout (0-d, tof[tof], L2 and optionally the energy "
+    "per spectrum, all operands along one dim, DataArray through convert() with optional bin-edge "
+    "tof). Arrival times are t = L1/v(Ei) + L2/v(Ef) evaluated in 50 digits from the *stored* "
+    "operands and rounded to the tof unit and dtype, plus unphysical times (fractions of t0, zero, "
+    "negative) and arbitrary times t0*10^[-3,3] (exponent 0 = the rounded t0 itself). The boundary "
+    "facet sections the representable times between -t0, 0, t0/2, t0(1 -/+ 1e-3), 2 t0, 1000 t0 "
+    "128-fold until the largest time with a NaN result is isolated, then evaluates all 129 "
+    "representable times around it. Oracle: the definition E = m_n v^2/2 leg by leg in mpmath "
+    "(m_n from scipp.constants) on the stored operands. A value case is non-trivial when Ei != Ef "
+    "for some compared element whose tolerance is at most 1 % of max(Ei, Ef) (the comparison "
+    "really constrains the result; ill-conditioned and elastic elements are compared but not "
+    "counted); a never_infinite case when some element was decided (NaN expected and found, or "
+    "value compared); every boundary case is non-trivial (the switch was isolated between two "
+    "adjacent representable times); distinct = distinct descriptor hash."
 )
 
 ULP_TOL = 8
@@ -44,6 +46,12 @@ TOLERANCES = {
                  "by the coarsest operand dtype; t, t0, E_other exact from the stored operands",
     "nan_boundary": "8 ulp of the precision class at t0 + 1e-12 * t0",
     "boundary_window_ulp": WINDOW,
+    "measured_on_unchanged_tree": "worst |err|/tol over 66 000 value cases: 0.0061 (float64, i.e. 6.1e-14, "
+                                  "dominated by scipp's to_unit of m_n/2) and 0.015 (float32, i.e. 1.5e-7); NaN switch "
+                                  "over 29 000 cases: float32 within 1.7 ulp of the exact t0; float64 within 2.3 ulp "
+                                  "where sc.to_unit(m_n/2) is accurate to 2 eps, up to 26 ulp (meV, angstrom, ns) and "
+                                  "up to 546 ulp = 6.1e-14 relative (meV with s/cm; eV, ueV with s/m, ms/mm, ...) "
+                                  "where it is not",
 }
 ASSUMPTIONS = [
     "mpmath at 50 digits is exact enough to serve as ground truth",
@@ -108,10 +116,6 @@ def _ulp(x: float, cls: str) -> float:
 def band_of(t0_u: float, cls: str) -> float:
     """Half-width of the zone around the exact t0 in which the NaN switch may legitimately sit."""
     return ULP_TOL * _ulp(t0_u, cls) + DEP_REL * abs(t0_u)
-
-
-def _shape(op):
-    return [len(op["values"])] if op["dims"] else []
 
 
 def build_var(op, dtype):
@@ -264,7 +268,7 @@ def labels_of(case, stats=None, extra=()):
         if stats["nan"]:
             labs.append("has-nan-elements")
         if stats["band"]:
-            labs.append("has-elements-in-8ulp-band")
+            labs.append("has-elements-in-boundary-band")
         if stats["range_skipped"]:
             labs.append("has-elements-outside-energy-range")
         if stats["compared"] and not stats["constraining"]:
@@ -275,20 +279,47 @@ def labels_of(case, stats=None, extra=()):
 # ------------------------------------------------------------------ strategies
 
 
-@st.composite
-def setups(draw, modes=("direct", "indirect")):
-    mode = draw(st.sampled_from(list(modes)))
-    kind = draw(st.sampled_from(["f64", "f64", "f32", "f32", "mixed"]))
+# Strategy objects are built once: Hypothesis validates every new strategy object it meets, which
+# dominated the run time when they were created inside the composites.
+S_MODE = st.sampled_from(["direct", "indirect"])
+S_DKIND = st.sampled_from(["f64", "f64", "f32", "f32", "mixed"])
+S_DTYPE = st.sampled_from(["float64", "float32"])
+S_TUNIT = st.sampled_from(T_UNITS)
+S_LUNIT = st.sampled_from(L_UNITS)
+S_EUNIT = st.sampled_from(E_UNITS)
+S_ENERGY_MEV = logfloat(-3, 4)
+S_LENGTH_M = logfloat(-1, 3)
+S_NS = st.integers(1, 3)
+S_NTOF = st.integers(1, 4)
+S_L2_SPREAD = st.floats(0.5, 2.0, allow_nan=False)
+S_E_SPREAD = st.floats(0.8, 1.25, allow_nan=False)
+S_BELOW = st.floats(0.0, 0.999, allow_nan=False)
+S_NEG = st.floats(1e-3, 10.0, allow_nan=False)
+S_ANY_EXP = st.floats(-3.0, 3.0, allow_nan=False)
+S_BOOL = st.booleans()
+S_1IN20 = st.integers(0, 19)
+TIME_KINDS = ["phys"] * 7 + ["elastic", "below", "below", "zero", "negative"]
+ANY_KINDS = ["any"] * 6 + ["phys", "below", "zero", "negative"]
+S_KINDS = {
+    "value": st.sampled_from(TIME_KINDS),
+    "any": st.sampled_from(ANY_KINDS),
+    "underflow": st.sampled_from(["phys", "phys", "below"]),
+}
+S_LAYOUTS = {
+    "all": st.sampled_from(["0d", "1d", "2d", "2dE"]),
+    "2d": st.sampled_from(["2d", "2dE"]),
+    "small": st.sampled_from(["0d", "1d"]),
+}
+
+
+def _setup(draw, mode=None):
+    mode = mode or draw(S_MODE)
+    kind = draw(S_DKIND)
     if kind == "mixed":
-        dt = {n: draw(st.sampled_from(["float64", "float32"])) for n in OPS}
+        dt = {n: draw(S_DTYPE) for n in OPS}
     else:
         dt = dict.fromkeys(OPS, "float64" if kind == "f64" else "float32")
-    u = {
-        "tof": draw(st.sampled_from(T_UNITS)),
-        "L1": draw(st.sampled_from(L_UNITS)),
-        "L2": draw(st.sampled_from(L_UNITS)),
-        "E": draw(st.sampled_from(E_UNITS)),
-    }
+    u = {"tof": draw(S_TUNIT), "L1": draw(S_LUNIT), "L2": draw(S_LUNIT), "E": draw(S_EUNIT)}
     moved = False
     if in_f32_underflow_region(mode, dt, u):
         u["tof"] = "us"
@@ -296,43 +327,31 @@ def setups(draw, modes=("direct", "indirect")):
     return {"mode": mode, "dt": dt, "u": u, "moved": moved}
 
 
-def energy_mev():
-    return logfloat(-3, 4)
-
-
-def length_m():
-    return logfloat(-1, 3)
-
-
 def _si_energy(mev: float):
     return mp.mpf(mev) * units.ENERGY["meV"]
 
 
-def _spread(draw, lo, hi):
-    return draw(st.floats(lo, hi, allow_nan=False))
-
-
-@st.composite
-def geometry(draw, s, layout):
+def _geometry(draw, s, layout):
     """Stored operand descriptors for L1, L2, E of a setup ``s``."""
-    mode, dt, u = s["mode"], s["dt"], s["u"]
-    ns = draw(st.integers(1, 3)) if layout in ("2d", "2dE") else 1
-    L1 = float(draw(length_m()))
-    L2_0 = float(draw(length_m()))
-    E_0 = float(draw(energy_mev()))
+    dt, u = s["dt"], s["u"]
+    two_d = layout in ("2d", "2dE")
+    ns = draw(S_NS) if two_d else 1
+    L1 = float(draw(S_LENGTH_M))
+    L2_0 = float(draw(S_LENGTH_M))
+    E_0 = float(draw(S_ENERGY_MEV))
     L2s, Es = [L2_0], [E_0]
     for _ in range(ns - 1):
-        L2s.append(min(max(L2_0 * _spread(draw, 0.5, 2.0), 0.1), 1e3))
-        Es.append(min(max(E_0 * _spread(draw, 0.8, 1.25), 1e-3), 1e4))
-    ops = {
+        L2s.append(min(max(L2_0 * draw(S_L2_SPREAD), 0.1), 1e3))
+        Es.append(min(max(E_0 * draw(S_E_SPREAD), 1e-3), 1e4))
+    if layout != "2dE":
+        Es = Es[:1]
+    return {
         "L1": {"unit": u["L1"], "dims": [], "values": [_stored(L1, u["L1"], dt["L1"])]},
-        "L2": {"unit": u["L2"], "dims": ["spectrum"] if ns > 1 or layout in ("2d", "2dE") else [],
+        "L2": {"unit": u["L2"], "dims": ["spectrum"] if two_d else [],
                "values": [_stored(x, u["L2"], dt["L2"]) for x in L2s]},
         "E": {"unit": u["E"], "dims": ["spectrum"] if layout == "2dE" else [],
-              "values": [_stored(_si_energy(x), u["E"], dt["E"]) for x in (Es if layout == "2dE" else Es[:1])]},
+              "values": [_stored(_si_energy(x), u["E"], dt["E"]) for x in Es]},
     }
-    del mode
-    return ops
 
 
 def _spectrum0(s, ops):
@@ -345,44 +364,44 @@ def _spectrum0(s, ops):
     return inelastic.flight_time(L2, E), L1, E
 
 
-TIME_KINDS = ["phys"] * 7 + ["elastic", "below", "below", "zero", "negative"]
-
-
-@st.composite
-def arrival_times(draw, s, ops, n, kinds=TIME_KINDS):
+def _arrival_times(draw, s, ops, n, kinds):
     """n stored tof values and their kinds, relative to spectrum 0 of ``ops``."""
     t0, L_other, E_fixed = _spectrum0(s, ops)
     tu, tdt = s["u"]["tof"], s["dt"]["tof"]
     vals, ks = [], []
     for _ in range(n):
-        k = draw(st.sampled_from(kinds))
+        k = draw(S_KINDS[kinds])
         if k == "phys":
-            t = t0 + inelastic.flight_time(L_other, _si_energy(draw(energy_mev())))
+            t = t0 + inelastic.flight_time(L_other, _si_energy(draw(S_ENERGY_MEV)))
         elif k == "elastic":
             t = t0 + inelastic.flight_time(L_other, E_fixed)
         elif k == "below":
-            t = t0 * mp.mpf(draw(st.floats(0.0, 0.999, allow_nan=False)))
+            t = t0 * mp.mpf(draw(S_BELOW))
         elif k == "zero":
             t = mp.mpf(0)
         elif k == "negative":
-            t = -t0 * mp.mpf(draw(st.floats(1e-3, 10.0, allow_nan=False)))
-        else:  # "any": arbitrary time around t0
-            t = t0 * mp.mpf(10) ** mp.mpf(draw(st.floats(-3.0, 3.0, allow_nan=False)))
+            t = -t0 * mp.mpf(draw(S_NEG))
+        else:  # "any": arbitrary time around t0 (exponent 0 = the rounded t0 itself)
+            t = t0 * mp.mpf(10) ** mp.mpf(draw(S_ANY_EXP))
         vals.append(_stored(t, tu, tdt))
         ks.append(k)
     return vals, ks
 
 
-@st.composite
-def kernel_cases(draw, layouts=("0d", "1d", "2d", "2dE"), kinds=TIME_KINDS, s=None):
-    s = s or draw(setups())
-    layout = draw(st.sampled_from(list(layouts)))
-    ops = draw(geometry(s, layout))
-    n = 1 if layout == "0d" else draw(st.integers(1, 4))
-    vals, ks = draw(arrival_times(s, ops, n, kinds))
+def _kernel_case(draw, layouts="all", kinds="value", s=None):
+    s = s or _setup(draw)
+    layout = draw(S_LAYOUTS[layouts])
+    ops = _geometry(draw, s, layout)
+    n = 1 if layout == "0d" else draw(S_NTOF)
+    vals, ks = _arrival_times(draw, s, ops, n, kinds)
     ops["tof"] = {"unit": s["u"]["tof"], "dims": [] if layout == "0d" else ["tof"], "values": vals}
     return {"mode": s["mode"], "dt": s["dt"], "moved": s["moved"], "layout": layout,
             "ops": ops, "kinds": ks}
+
+
+@st.composite
+def kernel_cases(draw):
+    return _kernel_case(draw)
 
 
 # ------------------------------------------------------------------ facet 1a: kernels vs formula
@@ -404,11 +423,11 @@ def check_kernel(case):
 
 @st.composite
 def convert_cases(draw):
-    case = draw(kernel_cases(layouts=("2d", "2dE")))
-    case["edges"] = draw(st.booleans())
+    case = _kernel_case(draw, layouts="2d")
+    case["edges"] = draw(S_BOOL)
     if case["edges"] and len(case["ops"]["tof"]["values"]) < 2:
         case["edges"] = False
-    case["extra_coord"] = draw(st.booleans())
+    case["extra_coord"] = draw(S_BOOL)
     return case
 
 
@@ -448,23 +467,23 @@ def check_convert(case):
 
 @st.composite
 def conservation_cases(draw):
-    s = draw(setups(modes=("direct",)))
+    s = _setup(draw, mode="direct")
     dt, u = s["dt"], s["u"]
-    u_Ef = draw(st.sampled_from(E_UNITS))
+    u_Ef = draw(S_EUNIT)
     if in_f32_underflow_region("indirect", dt, {**u, "E": u_Ef}):
         # the same exclusion for the indirect call (its fixed leg is L2)
         u["tof"] = "us"
         s["moved"] = True
-    n = draw(st.integers(1, 3))
-    along = draw(st.sampled_from(["0d", "tof"])) if n == 1 else "tof"
+    n = draw(S_NS)
+    along = ("0d" if draw(S_BOOL) else "tof") if n == 1 else "tof"
     pts = {"Ei": [], "Ef": [], "L1": [], "L2": [], "tof": []}
     for _ in range(n):
-        Ei = float(draw(energy_mev()))
-        Ef = Ei if draw(st.integers(0, 19)) == 0 else float(draw(energy_mev()))
+        Ei = float(draw(S_ENERGY_MEV))
+        Ef = Ei if draw(S_1IN20) == 0 else float(draw(S_ENERGY_MEV))
         sEi = _stored(_si_energy(Ei), u["E"], dt["E"])
         sEf = _stored(_si_energy(Ef), u_Ef, dt["E"])
-        sL1 = _stored(float(draw(length_m())), u["L1"], dt["L1"])
-        sL2 = _stored(float(draw(length_m())), u["L2"], dt["L2"])
+        sL1 = _stored(float(draw(S_LENGTH_M)), u["L1"], dt["L1"])
+        sL2 = _stored(float(draw(S_LENGTH_M)), u["L2"], dt["L2"])
         t = inelastic.arrival_time(units.si(sL1, u["L1"]), units.si(sEi, u["E"]),
                                    units.si(sL2, u["L2"]), units.si(sEf, u_Ef))
         pts["Ei"].append(sEi)
@@ -568,8 +587,8 @@ def check_conservation(case):
 
 @st.composite
 def boundary_cases(draw):
-    s = draw(setups())
-    ops = draw(geometry(s, "0d"))
+    s = _setup(draw)
+    ops = _geometry(draw, s, "0d")
     return {"mode": s["mode"], "dt": s["dt"], "moved": s["moved"], "ops": ops, "tof_unit": s["u"]["tof"]}
 
 
@@ -715,7 +734,7 @@ def check_boundary(case):
 
 @st.composite
 def noinf_cases(draw):
-    return draw(kernel_cases(kinds=["any"] * 6 + ["phys", "below", "zero", "negative"]))
+    return _kernel_case(draw, kinds="any")
 
 
 def check_noinf(case):
@@ -744,17 +763,22 @@ def _underflow_combos():
     return out
 
 
+_S_UNDERFLOW = {}
+S_DTYPE_MOSTLY32 = st.sampled_from(["float32", "float32", "float64"])
+
+
 @st.composite
 def underflow_cases(draw):
-    combos = _underflow_combos()
-    eu, lu, tu = draw(st.sampled_from(combos))
-    mode = draw(st.sampled_from(["direct", "indirect"]))
-    dt = {n: draw(st.sampled_from(["float32", "float32", "float64"])) for n in OPS}
+    if not _S_UNDERFLOW:
+        _S_UNDERFLOW["combos"] = st.sampled_from(_underflow_combos())
+    eu, lu, tu = draw(_S_UNDERFLOW["combos"])
+    mode = draw(S_MODE)
+    dt = {n: draw(S_DTYPE_MOSTLY32) for n in OPS}
     dt["E"] = "float32"
-    u = {"tof": tu, "L1": draw(st.sampled_from(L_UNITS)), "L2": draw(st.sampled_from(L_UNITS)), "E": eu}
+    u = {"tof": tu, "L1": draw(S_LUNIT), "L2": draw(S_LUNIT), "E": eu}
     u[fixed_length_name(mode)] = lu
     s = {"mode": mode, "dt": dt, "u": u, "moved": False}
-    return draw(kernel_cases(layouts=("0d", "1d"), kinds=["phys", "phys", "below"], s=s))
+    return _kernel_case(draw, layouts="small", kinds="underflow", s=s)
 
 
 def check_underflow(case):
@@ -782,24 +806,24 @@ MATCHERS = {"C05.f32_unit_constant_underflow": _match_f32_underflow}
 
 FACETS = [
     Facet("kernel_vs_formula", check_kernel, strategy=lambda tier: kernel_cases(),
-          quick=(4, 700), thorough=(16, 12000), min_nontrivial=0.3,
+          quick=(4, 1000), thorough=(16, 10000), min_nontrivial=0.3,
           doc="direct and indirect kernels vs E = m v^2/2 leg by leg in mpmath on the stored operands; "
               "unit of the supplied energy; NaN before t0; conditioned tolerance"),
     Facet("convert_wiring", check_convert, strategy=lambda tier: convert_cases(),
-          quick=(2, 400), thorough=(16, 3000), min_nontrivial=0.3,
+          quick=(2, 600), thorough=(16, 3000), min_nontrivial=0.3,
           doc="scn.convert(tof -> energy_transfer) on a DataArray with incident_energy or final_energy"),
     Facet("energy_conservation", check_conservation, strategy=lambda tier: conservation_cases(),
-          quick=(3, 600), thorough=(16, 10000), min_nontrivial=0.3,
+          quick=(3, 800), thorough=(16, 8000), min_nontrivial=0.3,
           doc="same neutron through both geometries: each equals Ei-Ef, and they equal each other"),
     Facet("nan_boundary", check_boundary, strategy=lambda tier: boundary_cases(),
-          quick=(4, 500), thorough=(16, 8000), min_nontrivial=0.5,
+          quick=(4, 700), thorough=(16, 6000), min_nontrivial=0.5,
           doc="all representable times within 64 ulp of exact t0 plus far samples: NaN prefix, finite "
               "suffix, switch within 8 ulp of t0, no infinity next to it"),
     Facet("never_infinite", check_noinf, strategy=lambda tier: noinf_cases(),
-          quick=(2, 600), thorough=(16, 8000), min_nontrivial=0.3,
+          quick=(2, 800), thorough=(16, 6000), min_nontrivial=0.3,
           doc="arbitrary finite times t0*10^[-3,3], zero, negative: NaN iff before t0, never +-inf"),
     Facet("f32_small_constant", check_underflow, strategy=lambda tier: underflow_cases(),
-          quick=(1, 200), thorough=(4, 2000), min_nontrivial=0.5,
+          quick=(1, 300), thorough=(4, 2000), min_nontrivial=0.5,
           doc="float32 energy with m_n/2 in unit(E)(unit(t)/unit(L))^2 below the float32 normal range "
               "(J with angstrom/nm/um and s/ms): same oracle as kernel_vs_formula"),
 ]
